@@ -84,6 +84,7 @@ class EllipsoidART(BaseART):
         assert 1.0 >= params["alpha"] >= 0.0
         assert 1.0 >= params["beta"] >= 0.0
         assert 1.0 >= params["mu"] > 0.0
+        assert params["r_hat"] > 0.0
         assert isinstance(params["rho"], float)
         assert isinstance(params["alpha"], float)
         assert isinstance(params["beta"], float)
